@@ -350,6 +350,8 @@ def _cond_value(c, env, cache):
             return np.logical_and(a, b) if c.op == "and" else np.logical_or(a, b)
         if c.op == "not":
             return np.logical_not(_cond_value(c.args[0], env, cache))
+        if c.op == "call" and c.args[0] in INTERPRETED:
+            return evaluate(c, env, cache)
         if has_uninterpreted(c):
             h = hashlib.md5((c.key() + repr(env.get("__salt__", 0.0))).encode()).digest()
             return bool(h[0] & 1)
